@@ -306,6 +306,11 @@ func (c *Controller) scaleNodeGroup(nodegroup string, nodeGroup *NodeGroupState)
 
 	// If we ever get into a state where we have less nodes than the minimum
 	if len(untaintedNodes) < nodeGroup.Opts.MinNodes {
+		// the scale lock is checked before any scaling activity, including restoring the minimum
+		if nodeGroup.scaleUpLock.locked() {
+			log.WithField("nodegroup", nodegroup).Info("Waiting for scale to finish")
+			return nodeGroup.scaleUpLock.requestedNodes, nil
+		}
 		log.WithField("nodegroup", nodegroup).Warn("There are less untainted nodes than the minimum")
 		result, err := c.ScaleUp(scaleOpts{
 			nodes:             allNodes,
